@@ -431,3 +431,91 @@ def early_exit(body, nx):
         if x in seen:
             return witness_path(body, seen, x)
     return None
+
+
+def _closure_defs(body, op):
+    """def keys of the closures an operand may hold"""
+    out = set()
+    pl = op.get("m") or op.get("c") if isinstance(op, dict) else op
+    if not pl:
+        return out
+    for l in deep_locals(body, pl, depth=6):
+        for (bb, j, dpl, rv) in body.defs().get(l, []):
+            if j != -1 and rv.get("r") == "agg" and rv.get("ak") == "closure" and rv.get("def"):
+                out.add(rv["def"])
+    return out
+
+
+MAP_LIKE = r"(Option|Result)::(map|and_then|map_or|map_or_else|filter_map|then|unwrap_or_else)$"
+
+
+def deep_origins(F, body, op, depth=5, same_module=True, _stack=(), stop=None, unwrap=False):
+    """Interprocedural provenance: like body.origins(op) but a call to a crate-local function (by default: of the same module) is replaced
+    by what that function returns (its parameters mapped back to the caller's arguments), and `opt.map(|x| ..)` / and_then by what the closure
+    returns (its parameter mapped to the receiver). Leaves keep the format of Body.origins; leaves of other bodies carry that body's block ids."""
+    mod = body.key.split("::{closure")[0].rsplit("::", 1)[0]
+    out = set()
+    if unwrap:
+        # the payload of Some / Ok (what an Option::map closure receives): look through the wrappers, None never arrives
+        old, body.unwrap_some = body.unwrap_some, True
+        try:
+            first = {l for l in body.origins(op) if not (l[0] == "agg" and l[1].endswith(("Option::None",)))}
+        finally:
+            body.unwrap_some = old
+    else:
+        first = body.origins(op)
+    for l in first:
+        if l[0] == "param" and "::{closure#" in body.key and depth > 0 and not _stack:
+            # a closure's own parameter: what the adaptor it is passed to feeds it (the receiver of map / and_then)
+            pk = body.key.rsplit("::{closure#", 1)[0]
+            fed = None
+            if F.has(pk):
+                P = F.fn_exact(pk)
+                for c in P.calls:
+                    if not c.cleanup and re.search(MAP_LIKE, c.nname) and len(c.args) >= 2 and any(body.key in _closure_defs(P, a_) for a_ in c.args[1:]):
+                        fed = deep_origins(F, P, c.args[0], depth - 1, same_module, (), stop, True)
+            if fed is not None:
+                out |= fed
+            else:
+                out.add(("unknown", "closure parameter %s of %s" % (l[1], body.key.rsplit("::", 1)[-1]), ()))
+            continue
+        if l[0] != "call" or depth <= 0:
+            out.add(l)
+            continue
+        c = body.call_at(l[2])
+        if c is None:
+            out.add(l)
+            continue
+        nn = c.nname
+        if re.search(MAP_LIKE, nn) and len(c.args) >= 2:
+            cds = [k for a_ in c.args[1:] for k in _closure_defs(body, a_) if F.has(k)]
+            if cds:
+                for k in cds:
+                    if k in _stack:
+                        continue
+                    C = F.fn_exact(k)
+                    for s_ in deep_origins(F, C, [0], depth - 1, same_module, _stack + (k,), stop):
+                        if s_[0] == "param":
+                            out |= deep_origins(F, body, c.args[0], depth - 1, same_module, _stack, stop)
+                        elif s_[0] == "upvar":
+                            out.add(("upvar-of-closure", s_[1], s_[2] if len(s_) > 2 else ()))
+                        else:
+                            out.add(s_)
+                continue
+        key = nn if F.has(nn) else (c.callee if c.callee and F.has(c.callee) else None)
+        if key and stop and re.search(stop, key):
+            key = None
+        if key and c.local and key != body.key and key not in _stack and (not same_module or key.rsplit("::", 1)[0] == mod):
+            C = F.fn_exact(key)
+            for s_ in deep_origins(F, C, [0], depth - 1, same_module, _stack + (key,), stop, unwrap):
+                if s_[0] == "param":
+                    idx = next((i for i in range(1, C.argc + 1) if (C.local_name(i) or "_%d" % i) == s_[1]), None)
+                    if idx is not None and idx - 1 < len(c.args):
+                        out |= deep_origins(F, body, c.args[idx - 1], depth - 1, same_module, _stack, stop)
+                    else:
+                        out.add(s_)
+                else:
+                    out.add(s_)
+            continue
+        out.add(l)
+    return out
